@@ -56,6 +56,7 @@ class CoreGen(progs.ProgGen):
         self.fnames = ["f", "g"]
         self.defined = set()
         self.fdefined = set()
+        self.fn_locals = []      # named parameters readable right here (directly in a function body)
 
     def num(self):
         r = self.rng
@@ -73,6 +74,8 @@ class CoreGen(progs.ProgGen):
         if x < 0.84:
             return r.choice(CALL_ELEMENTS)
         if x < 0.91 and not pure:
+            if self.fn_locals and r.random() < 0.6:
+                return "←" + r.choice(self.fn_locals) + " "
             known = sorted(self.defined)
             if known and r.random() < 0.9:
                 return "←" + r.choice(known) + " "
@@ -91,7 +94,7 @@ class CoreGen(progs.ProgGen):
     def seq(self, d, indef, pure, lo=0):
         return "".join(self.item(d, indef, pure) for _ in range(self.rng.randrange(lo, self.max_items + 1)))
 
-    def single(self, d, indef=True, pure=False):
+    def _single(self, d, indef=True, pure=False):
         """exactly one structure (a modifier operand)"""
         r = self.rng
         if d <= 0 or r.random() < 0.55:
@@ -129,10 +132,25 @@ class CoreGen(progs.ProgGen):
             return "‡" + self.single(d - 1, True, pure) + self.single(d - 1, True, pure)
         return "≬" + self.single(d - 1, True, pure) + self.single(d - 1, True, pure) + self.single(d - 1, True, pure)
 
+    def nested(self, fn):
+        """generate inside a nested def: the parameters of the enclosing function are not readable"""
+        saved, self.fn_locals = self.fn_locals, []
+        try:
+            return fn()
+        finally:
+            self.fn_locals = saved
+
+    def single(self, d, indef=True, pure=False):
+        return self.nested(lambda: self._single(d, indef, pure))
+
     def structure(self, d, indef, pure):
         r = self.rng
-        k = r.randrange(13)
-        b = lambda i=indef, p=pure, lo=0: self.seq(d - 1, i, p, lo)  # noqa: E731
+        k = r.randrange(14)
+
+        def b(i=indef, p=pure, lo=0):
+            if k not in (0, 1, 2, 3, 4):
+                return self.nested(lambda: self.seq(d - 1, i, p, lo))
+            return self.seq(d - 1, i, p, lo)
         if k in (0, 1):
             out = "[" + b()
             for _ in range(r.choice([0, 1, 1, 1, 2, 3])):
@@ -169,10 +187,16 @@ class CoreGen(progs.ProgGen):
             return out + "⟩"
         if k == 11 and not indef and not pure:
             name = r.choice(self.fnames)
-            params = r.choice(["", ":1", ":2", ":1:1", ":0", ":3"])
-            body = b(True, False)
+            params = r.choice(["", ":1", ":2", ":1:1", ":0", ":3", ":p", ":p:q", ":1:p", ":p:2", ":p:p"])
+            saved, self.fn_locals = self.fn_locals, [x for x in ("p", "q") if x in params]
+            try:
+                body = self.seq(d - 1, True, False)
+            finally:
+                self.fn_locals = saved
             self.fdefined.add(name)
             return "@" + name + params + "|" + body + ";"
+        if k == 13:
+            return "µ" + b(True, pure) + ";"
         if not pure and self.fdefined:
             return "@" + r.choice(sorted(self.fdefined)) + ";"
         return "ƛ" + b(True, True) + ";"
@@ -192,6 +216,10 @@ SEEDS = [
     "⟨1|2|3⟩ ƒ+", "123 ƒ+", "⟨1|2|3⟩ ɖ+", "3 4 ₌+-", "3 4 ₍+-", "3 ⁽›M", "3 ‡›dM", "3 ≬›d‹M", "⟨⟩ƒ+", "⟨⟩ɖ+", "5 λ£;† ¥",
     "3(n) W", "2(3(n)) W", "3 ƛ2(n)W;", "⟨1|2⟩(n ƛn;) W", "5 λ:[n|0];†", "?? +", "? λ?;†", "λ2|;†", "2 λ λn;† ;†",
     "@f:1|:[‹@f;];3@f;W", "3→a {←a|←a, ←a‹→a}", "1 2 3 ^ W", "3 4 $ W", "1 : D W", "⟨⟨1|2⟩|3⟩ f ∑", "120 Ṙ", "⟨1|2⟩ 3 J 4 J L",
+    "1 2 λ2|__-;†", "1 2 3 λ3|___\";†", "4 5 λ2|$_!;†", "@f:2|__-;1 2@f;", "1 2 ₌λ2|__-;λ2|__\";", "7 8 9 @f:3|___W;@f;",
+    "@f:p|←p d;5@f;", "@f:p:q|←p ←q -;1 2@f;", "@f:1:p|←p +;1 2@f;", "@f:p:2|←p W;1 2 3@f;", "@f:p:p|←p;1 2@f;W", "3→p @f:p|←p;5@f;←p W",
+    "@f:p|←p λ5;† +;4@f;", "@f:p|n ←p;4@f;W", "@f:p|;4@f;W", "@f:p|?;4@f;", "@f:p|_ _;4@f;W", "⟨3|1|2⟩µN;", "⟨3|1|2⟩µ;", "312µ;", "⟨3|1|2⟩µ,0;",
+    "⟨⟨3⟩|⟨1|5⟩|⟨2⟩⟩µL;", "⟨3|1|2⟩ λN; ṡ", "⟨3|1|2⟩ λ2<; ṡ",
     "10 λ2|n;†", "1 2 λ2|n W;†", "3 4 @f:2|n;@f;", "@f:2|!;1@f;", "@f:0|n;@f;", "λ0|!;†", "3 λ0|?;†", "⟨?|?⟩", "5 ƛ⟨n|n⟩;",
 ]
 
